@@ -1,6 +1,7 @@
 package verifharness
 
 import (
+	"bytes"
 	"encoding/json"
 	"fmt"
 	"io"
@@ -148,6 +149,16 @@ func clientReload(w *World) {
 		}
 		if variant >= 2 {
 			p["transport"] = map[string]any{"useEncryption": true}
+		}
+		if w.In.Property == "C16" && typ == "tcp" {
+			// C16 batch: the tcp proxies announce their users to the backend with a PROXY protocol header built from
+			// what the server says about the user
+			tr, _ := p["transport"].(map[string]any)
+			if tr == nil {
+				tr = map[string]any{}
+			}
+			tr["proxyProtocolVersion"] = []string{"v1", "v2"}[int(name[0]-'a')%2]
+			p["transport"] = tr
 		}
 		return p
 	}
@@ -374,9 +385,20 @@ func clientReload(w *World) {
 		writeMsg(wc, tStartWorkConn, M{"proxy_name": name, "src_addr": "10.0.3.1", "src_port": 1234, "dst_addr": "10.0.0.1", "dst_port": 21000})
 		wc.Write([]byte("hello"))
 		wc.SetReadDeadline(time.Now().Add(5 * time.Second))
-		buf := make([]byte, 5)
-		_, err := io.ReadFull(wc, buf)
-		return err == nil && string(buf) == "hello"
+		// (in the C16 batch the echo is preceded by the PROXY protocol header the client sent to the backend)
+		var got []byte
+		buf := make([]byte, 256)
+		for !bytes.Contains(got, []byte("hello")) {
+			n, err := wc.Read(buf)
+			got = append(got, buf[:n]...)
+			if err != nil {
+				break
+			}
+		}
+		if w.In.Property != "C16" {
+			return string(got) == "hello"
+		}
+		return bytes.HasSuffix(got, []byte("hello"))
 	}
 	if stopped != "" {
 		w.Check("C19.stopped-proxy-refuses-work")
@@ -396,6 +418,38 @@ func clientReload(w *World) {
 		w.Check("C19.running-proxy-serves")
 		if !tryWork(running) {
 			viol("converge", "running-proxy-does-not-serve", "proxy %s is configured and registered but a work connection for it was not bridged", running)
+		}
+	}
+	// C16 batch: the server describes the user of a work connection with arbitrary field values; whatever the client
+	// makes of them, it keeps running (a panic in any goroutine of frpc ends the run as a crash)
+	if w.In.Property == "C16" {
+		w.Check("C16.client-survives-hostile-startworkconn")
+		w.Probe("client.hostile_startworkconn")
+		hr := newSubRand(w, "hostile-start")
+		for i := 0; i < 6; i++ {
+			var name string
+			for n := range cur {
+				if mkProxy(n, 0)["type"] == "tcp" && (name == "" || n < name) {
+					name = n
+				}
+			}
+			if name == "" {
+				break
+			}
+			ss.Send(tReqWorkConn, M{})
+			wc := srv.TakeWorkConn(10 * time.Second)
+			if wc == nil {
+				break
+			}
+			addrs := []any{"", "not-an-address", "999.999.999.999", "1.2.3.4.5", "::zz", "[::1]", "10.0.3.1:80", strings.Repeat("a", 300), "\xff\xfe", "10.0.3.1", 12, nil}
+			ports := []any{0, -1, 1234, 65536, 1 << 40, "80", nil}
+			f := M{"proxy_name": name, "src_addr": addrs[hr.Intn(len(addrs))], "src_port": ports[hr.Intn(len(ports))],
+				"dst_addr": addrs[hr.Intn(len(addrs))], "dst_port": ports[hr.Intn(len(ports))], "error": []any{"", "", "no"}[hr.Intn(3)]}
+			writeMsg(wc, tStartWorkConn, f)
+			wc.Write([]byte("hello"))
+			wc.SetReadDeadline(time.Now().Add(3 * time.Second))
+			io.ReadFull(wc, make([]byte, 5))
+			wc.Close()
 		}
 	}
 	// the status API agrees
